@@ -206,7 +206,9 @@ def gen_sequence(r, k, length, with_set=True):
 
 
 def start_lines(seq):
-    L = ["natoms %d" % NATOMS, "samestep %d" % seq["samestep"], "includecv %d" % seq.get("includecv", 1), "temperature 300.0", "new"]
+    L = ["natoms %d" % NATOMS, "samestep %d" % seq["samestep"], "includecv %d" % seq.get("includecv", 1), "temperature 300.0",
+         "tfonrequest 1",      # total forces are exported only while requested, as NAMD/LAMMPS do
+         "new"]
     for a in range(1, NATOMS + 1):
         # a non-degenerate start configuration
         L.append("pos %d %r %r %r" % (a, 0.5 * a, 0.25 * ((a * 7) % 5) - 0.5, 0.125 * ((a * 3) % 7) + 0.25))
@@ -685,7 +687,7 @@ def check(run):
                 lk = D.monitor_links(cur)
                 mlines.append("MOP %d %d check %s" % (lag, FUEL, D.encode_mstate(cur, NATOMS)))
                 mexpect.append(("chk", "%d %d" % (0 if any(c != "A1" for c, _ in lk) else 1, 0 if any(c == "A1" for c, _ in lk) else 1), cur, part, None, None))
-            bad = D.monitor(tabs, cur) + D.monitor_links(cur)
+            bad = D.monitor(tabs, cur) + D.monitor_links(cur) + D.monitor_engine(tabs, cur)
             need = D.need_counts(tabs, cur)
             leak = sum(1 for oi, ob in enumerate(cur["objs"]) for g, f in enumerate(ob["fs"]) if f[2] > need[oi][g])
             run.dist("dump:ref_count-above-accounted-need" if leak else "dump:ref_count-equals-accounted-need")
@@ -693,9 +695,10 @@ def check(run):
             prev_bad = set(b[1] for b in bad)
             if new and not tainted:
                 code, text = new[0]
-                if ev["op"] in ("delbias", "delcv") and biases_inactive(prev):
+                deps_code = code in ("I1", "I3", "I4", "I4neg", "I5", "I6")
+                if deps_code and ev["op"] in ("delbias", "delcv") and biases_inactive(prev):
                     sig = F1
-                elif ev["op"] == "set" and ev["val"] == 0:
+                elif deps_code and ev["op"] == "set" and ev["val"] == 0:
                     sig = F3
                 else:
                     sig = "monitor:%s:%s" % (code, ev["op"])
